@@ -78,7 +78,7 @@ CLAIMED.update({
   note="Events come from sequential executions (both orders): schedule-dependent control flow inside a thread beyond that is not explored. 2 threads, <= 2 calls each. Stdlib internals behind intrinsics (sync, maps) are assumed race-free.",
   design="5/C16 and 2.7"),
  "C18": dict(
-  text="(1) A positioned ast with a parser-style object graph (file scope with two objects of symbolic name/kind/data, Decl links forming the cycle object->decl->ident->object, nested scope, extra object with Decl in {nil, Scope, node} and Data in {nil, Scope, int, node}) is decorated by the real DecorateFile: identifiers share an object exactly when their counterparts do, kind/name/data kept, Decl/Data links point to the dst counterparts, scope nesting and membership preserved, maps inverse; RestoreFile with Extras rebuilds an isomorphic graph. (2) The real dst.NewPackage and the real go/ast NewPackage run on mirrored files (1-2 files, 0-1 (2) scope objects and unresolved identifiers with symbolic one-byte names, 0-1 import spec plain/aliased/dot/blank, importer nil/failing/stub): same package scope, same error list (count and messages), same unresolved remainder.",
+  text="(1) A positioned ast with a parser-style object graph (file scope with two objects of symbolic name/kind/data, Decl links forming the cycle object->decl->ident->object, nested scope, extra object with Decl in {nil, Scope, node} and Data in {nil, Scope, int, node}) is decorated by the real DecorateFile: identifiers share an object exactly when their counterparts do, kind/name/data kept, Decl/Data links point to the dst counterparts, scope nesting and membership preserved, maps inverse; RestoreFile with Extras rebuilds an isomorphic graph. (2) The real dst.NewPackage and the real go/ast NewPackage run on mirrored files (1-2 files, 0-1 (thorough: 0-2 in the first file) scope objects and 0-1 (2) unresolved identifiers with symbolic one-byte names, 0-1 import spec plain/aliased/dot/blank, importer nil/failing/stub): same package scope, same error list (count and messages), same unresolved remainder.",
   note="Bounds as stated; with differing package clauses both implementations depend on map order alike (assumed equal names for 2 files).",
   design="5/C18"),
 })
@@ -105,6 +105,28 @@ CLAIMED.update({
   note="'Type-checks whenever the original did' is judged through name binding under contract T only; shadowing by declarations in B is excluded by the statement. One move, one moved reference.",
   design="5/C10"),
 })
+
+# ---- round-3 additions
+CLAIMED["C01"]["text"] += " (c) Entry points: decorator.Parse+Fprint, ParseFile with the caller's FileSet (prior file, symbolic base), Decorator.ParseFile with a []byte source (Filenames recorded) and Decorator.ParseDir over an in-memory file system (go/parser.ParseFile/ParseDir are engine intrinsics that run the real parser natively on concrete sources): the package and every file are in the node maps, files correspond by name, each file restores to the parsed ast."
+CLAIMED["C01"]["note"] = CLAIMED["C01"]["note"].replace("the entry-point wrappers (Parse/Print/ParseDir are thin and covered only through DecorateFile/RestoreFile in C12/C15/C20), ", "")
+CLAIMED["C02"]["text"] += " L1b (all node types): Clone of a generic instance is deeply equal to the original (every field, spacing value, decoration; all scalars symbolic), so a duplicate renders as the original. L3 hanging comments: switch/case and select/comm clause lists with empty or one-statement bodies, a comment one column deeper than the case line after a clause (columns symbolic), optional above-comment and blank line: link() stores the hanging comment inside its own clause and it is rendered with that clause after every edit. L4: with Restorer.Extras, a deleted declaration / short variable declaration that an object still refers to contributes nothing to the printed file (comments, line table and size equal to a restore without Extras)."
+CLAIMED["C04"]["text"] += " Instances also with all optional children absent (decorations stay on their point). One FileRestorer value restoring two files leaves the first file's comments untouched."
+CLAIMED["C06"]["text"] += " Clone drops Object/Scope links (identifier objects, file and package scopes, import objects) and shares nothing; the shared-node rejection also holds at RestoreFile level with and without Extras (VerifC06Links, VerifC06SharedFile)."
+CLAIMED["C06"]["note"] = "Bounds: children one level deep, lists <= 2."
+CLAIMED["C11"]["text"] += " The key identifier of a range statement (reached again through its object's synthetic declaration) with the whole-map inverse law; Decorator.ParseDir: the package node and all files are in both maps."
+CLAIMED["C13"]["text"] += " Leaf variants of statement/expression children are forked (implicit empty statement behind a label, Ellipsis without element, identifier lists), so that nil-calls and early returns of particular cases are compared too."
+CLAIMED["C14"]["text"] += " (3) A *dst.Package root, differential against astutil on the mirrored *ast.Package (1-2 files): same callbacks incl. calls with a nil node, files in file-name order with Name() = file name and Index() < 0, Delete/Replace at a forked file give the same final Files map."
+CLAIMED["C14"]["note"] = CLAIMED["C14"]["note"].replace(" Package.Files map special case not covered.", "")
+CLAIMED["C18"]["text"] += " A universe scope holding one predeclared name that unresolved identifiers may hit is forked in; both implementations are run repeatedly natively so that map-order dependent differences show."
+
+# ---- round-4 additions
+CLAIMED["C08"]["text"] += " VerifC08Reuse: one FileRestorer value restoring two files (first with an aliased/blank/dot import, alias symbolic): the second file's import block stays deeply equal and the user-facing Alias option is not written. VerifC08ExternalTest: decorator path x.y/a_test importing x.y/a: qualified identifiers keep the imported path, unedited restore keeps the import. VerifC08GoastNames: syntax-based resolver with an accurate name resolver on an un-aliased import whose package name (symbolic) differs from the last path element."
+CLAIMED["C09"]["text"] += " Further forks: the decorated package itself below a vendor directory; the decorated package being the external test package of the imported one; identifiers the parser linked to a same-file declaration; ResolveLocalPath; a raw-string import literal for the syntax-based resolver; one types-based resolver serving two files that bind one name to two paths (either order, asked again)."
+CLAIMED["C10"]["text"] += " VerifC10TwoFiles: two files of one package decorated by one Decorator and one syntax-based resolver bind the same (symbolic) name to different paths: each reference gets the path its own file imports, in either order. VerifC10LocalPath: with ResolveLocalPath and the types-based resolver a reference to a same-file package-level declaration (parser object set or not) carries the local path and is restored qualified into another package."
+CLAIMED["C16"]["text"] += " The shared-resolver harness also runs both goroutines on the same file; the shared-map harness also uses paths the shared guess map does not know (the map must not be written); the determinism harness also gives every used package an explicit symbolic alias (nothing left to resolve) in the quick tier."
+CLAIMED["C17"]["text"] += " (d) VerifC17Entry: the other decorating entry points - Decorator.ParseFile on a clean source and on one with a recoverable syntax error (real parser returns a partial file plus its error), DecorateNode on a fragment, Decorator.ParseDir - with the identifier resolver failing at call k: error wrapping the injected one, no tree; without failure the syntax error is returned with the tree."
+CLAIMED["C20"]["text"] += " The FS model answers os.Stat; old contents of exactly the new print's size are forked in; a multi-line raw string sits in the second file of the FileSet. VerifC20SaveDefault: the public Package.Save with its default go/packages resolver, packages.Load being an environment stub that reports 'not found' (as the go command does for a missing import; Package.Imports holds the nameless placeholder): Save returns an error naming the package, earlier files hold their print, the failing and later files keep their old contents."
+CLAIMED["C20"]["note"] = "Byte-identity of unedited files is C01/C08 territory and not repeated; decorator.Load and successful go/packages loads (process execution) are outside: only the failure side of the default resolver is modelled."
 
 NOT_YET = "check not built yet in this round (work in progress; see DESIGN.md section 7 for the order)"
 
